@@ -5,6 +5,7 @@
 -/
 import Snmp.Lemmas.WalkAbs
 import Snmp.Lemmas.WalkFaithful
+import Snmp.Lemmas.WalkRefine
 namespace Snmp.Props.C01
 open Snmp Snmp.WalkAbs
 
@@ -50,6 +51,58 @@ theorem C01_sound_nodup (fetch : Fetcher) (roots : List Oid) (lenient : Bool) (f
     have := (List.mergeSort_perm roots Walk.oidLe).mem_iff (a := r)
     exact this.mp hr
   exact ⟨r, hr', (inside_iff r y).mp hin⟩
+
+/-- **Completeness and termination on the Python-faithful model.**  Against the conformant agent
+    holding any strictly ascending database (no stored value being the endOfMibView marker), for
+    pairwise disjoint roots listed in any order, strict or lenient mode, and any loop budget of at
+    least `|db|` iterations: `Client.multiwalk` (hence `walk`) ends normally and has yielded every
+    database entry — OID and value — lying strictly below a requested root; everything it yields
+    is an entry of the database.  (Exactly-once and inside-the-roots hold for any agent:
+    `C01_sound_nodup`.) -/
+theorem C01_complete (dbv : List VarBind) (pol : BulkPolicy) (roots : List Oid) (lenient : Bool) (fuel : Nat)
+    (hs : Sorted (dbv.map (·.1))) (hv : ∀ vb ∈ dbv, vb.2.isEom = false)
+    (hd : Walk.PrefixFree roots) (hfuel : dbv.length ≤ fuel) :
+    let r := Walk.walkGetnext (Walk.exchangeOf (Agent.conformant dbv) dbv pol) roots lenient fuel
+    r.outcome = .done ∧
+    (∀ vb ∈ dbv, (∃ root ∈ roots, root <+: vb.1 ∧ vb.1 ≠ root) → vb ∈ r.yields) ∧
+    (∀ vb ∈ r.yields, vb ∈ dbv) := by
+  intro r
+  have hds := Walk.prefixFree_sorted roots hd
+  have href := Walk.multiwalk_refines dbv pol roots lenient fuel hs hv hds
+  have hcomp := multi_complete (dbv.map (·.1)) (Walk.sortOids roots) hs hds
+  simp only [List.length_map] at hcomp
+  -- more budget than |db|+1 rounds changes nothing once no cursor is left
+  have hrun : run (dbv.map (·.1)) (Walk.sortOids roots) (fuel + 1) (init (Walk.sortOids roots))
+      = run (dbv.map (·.1)) (Walk.sortOids roots) (dbv.length + 1) (init (Walk.sortOids roots)) := by
+    obtain ⟨j, rfl⟩ : ∃ j, fuel = dbv.length + j := ⟨fuel - dbv.length, by omega⟩
+    rw [show dbv.length + j + 1 = (dbv.length + 1) + j by omega, Walk.run_add, Walk.run_nil _ _ _ _ hcomp.1]
+  rw [hrun] at href
+  refine ⟨href.1 hcomp.1, ?_, ?_⟩
+  · intro vb hvb ⟨root, hroot, hpre, hne⟩
+    have hroot' : root ∈ Walk.sortOids roots := (List.mergeSort_perm roots Walk.oidLe).mem_iff.mpr hroot
+    have ho := hcomp.2 root hroot' vb.1 (List.mem_map_of_mem (f := (·.1)) hvb) hpre hne
+    have hy := href.2.1 vb.1 ho
+    rw [Walk.yieldOids_eq] at hy
+    obtain ⟨vb', hvb', heq⟩ := List.mem_map.mp hy
+    have hdb' := href.2.2 vb' hvb'
+    have : vb' = vb := Walk.sorted_keys_inj dbv hs vb' hdb' vb hvb heq
+    rw [Walk.yields_eq]
+    exact this ▸ hvb'
+  · intro vb hvb
+    rw [Walk.yields_eq] at hvb
+    exact href.2.2 vb hvb
+
+/-- **Single root, on the Python-faithful model, for ANY agent**: the instances come in strictly
+    ascending OID order. -/
+theorem C01_single_ascending (x : Exchange) (root : Oid) (lenient : Bool) (fuel : Nat) :
+    (Walk.yieldOids (Walk.walkGetnext x [root] lenient fuel).events).Pairwise (· < ·) :=
+  Walk.walk_single_ascending x root lenient fuel
+
+/-- the hypotheses of `C01_complete` are satisfiable by a non-trivial database, with the roots
+    listed in descending order, and the walk is then the expected one -/
+example : Sorted ([([1,3,1,1], Val.int 1), ([1,3,2,1], Val.null), ([1,3,2,2], Val.int 7)].map (·.1))
+    ∧ Walk.PrefixFree [[1,3,2],[1,3,1]] := by
+  refine ⟨by unfold Sorted; decide, by unfold Walk.PrefixFree; decide⟩
 
 example : Sorted [[1,3,1,1],[1,3,2,1]] ∧ Disjoint [[1,3,1],[1,3,2]] := by
   refine ⟨by unfold Sorted; decide, by unfold Disjoint; decide⟩
